@@ -36,6 +36,7 @@ def cases(tier, seed):
     if tier == "quick":
         out += [("tree", s) for s in F.sliced(F.K4(), seed % 16, 16)]
         out += [("tree", s) for s in F.P_ALL]
+        out.append(("tlc", 0))
     else:
         out += [("tree", s) for s in F.K4()]
         out += [("tree", s) for s in F.M3()]
